@@ -145,7 +145,7 @@ soxr_quality_spec_t soxr_quality_spec(unsigned long recipe, unsigned long flags)
 
 char const * soxr_engine(soxr_t p)
 {
-  return resampler_id();
+  return p->control_block[9]? resampler_id() : "none"; /* fatal_error zeroes the control block. */
 }
 
 
